@@ -70,7 +70,7 @@ func runC16CaseCh(t *testing.T, c c16Case, early chan CaseOut) CaseOut {
 		for _, n := range tp.Names {
 			for i := 0; i < c.Extra; i++ {
 				// names that resemble the sender's: same length, prefix, extension
-				pc, err := m.nodes[n].ListenPacket([]string{"snx", "sn", "sndd"}[i])
+				pc, err := m.nodes[n].ListenPacket([]string{"SND", "snx", "sn", "sndd"}[i])
 				if err != nil {
 					out.violate("harness:c16-listen", "%v", err)
 					return
@@ -293,7 +293,7 @@ func runC16Burst(t *testing.T, topo, src, dst string, n int, slow time.Duration,
 		done := make(chan struct{})
 		log := &noticeLog{got: map[string][]netceptor.UnreachableNotification{}}
 		for i := 0; i < extra; i++ {
-			pc, err := m.nodes[src].ListenPacket([]string{"snx", "sn", "sndd"}[i])
+			pc, err := m.nodes[src].ListenPacket([]string{"SND", "snx", "sn", "sndd"}[i])
 			if err != nil {
 				out.violate("harness:c16-listen", "%v", err)
 				return
@@ -409,7 +409,7 @@ func runC16(w *W) {
 		if p.src == p.dst {
 			hops = 0
 		}
-		for _, extra := range []int{0, 1, 3} {
+		for _, extra := range []int{0, 1, 4} {
 			variants := []c16Case{{Variant: "never-bound"}, {Variant: "closed-before"}, {Variant: "drop-rule"}}
 			if hops >= 2 {
 				variants = append(variants, c16Case{Variant: "drop-rule-transit"})
@@ -483,7 +483,7 @@ func init() {
 		ID:        "C16",
 		Level:     "model_checking",
 		Technique: "exhaustive enumeration of (topology, sender, target, moment of closing relative to every delivery step, number of unrelated sockets) on real nodes in a synctest bubble with harness-owned links; every socket of every node is subscribed and must stay silent except the sender's",
-		Rule: "chains of 1-3 hops, the two-path square and local delivery; target service never bound / closed before the send / closed after each of 0..hops+1 deliveries of the send / silently dropped by a firewall rule at the destination or at a transit node; 0, 1, 3 unrelated subscribed sockets on every node (names of the same length as, a prefix of, an extension of the sender name); stream dials (never bound, closed before, drop rule) on 1-3 hop paths, one process each; bursts of 1, 2, 3, 5 datagrams to as many unbound services with a subscriber that reads at once or takes 100 ms per notice. " +
+		Rule: "chains of 1-3 hops, the two-path square and local delivery; target service never bound / closed before the send / closed after each of 0..hops+1 deliveries of the send / silently dropped by a firewall rule at the destination or at a transit node; 0, 1, 4 unrelated subscribed sockets on every node (names that differ from the sender's only in letter case, have the same length, are a prefix or an extension of it); stream dials (never bound, closed before, drop rule) on 1-3 hop paths, one process each; bursts of 1, 2, 3, 5 datagrams to as many unbound services with a subscriber that reads at once or takes 100 ms per notice. " +
 			"Every case is a distinct configuration and non-trivial. Oracle: exactly one `service unknown` notice, on the sender's socket only, echoing source and destination, reported by the destination node; none for dropped packets; a dial ends within 5 virtual seconds because of the notice (and only by its time-outs when the packet is dropped).",
 		Assumptions: []string{"a datagram that was already handed to a live listener when it closed is outside the statement's premise (counted in counters.handed_to_listener_before_close)"},
 		Run:         runC16,
